@@ -59,7 +59,7 @@ BlockClauses(e) ==
 ListClauses(e) ==
   IF e.err # "" THEN [NoUnexpectedError |-> FALSE]
   ELSE IF e.order = 2 THEN
-         IF ~(MatWF(e.Alist) /\ \A a \in DOMAIN e.parts : MatWF(e.parts[a]) /\ \A a \in DOMAIN e.whole : MatWF(e.whole[a]))
+         IF ~(MatWF(e.Alist) /\ \A a \in DOMAIN e.parts : MatWF(e.parts[a]) /\ \A b \in DOMAIN e.whole : MatWF(e.whole[b]))
          THEN [WellFormed |-> FALSE]
          ELSE [NoUnexpectedError |-> TRUE, WellFormed |-> TRUE, EntriesIntegral |-> e.exact = 1,
                ListAssemblySums |-> ListAssemblySums(e.Alist, e.parts) /\ \A a \in DOMAIN e.whole : SameMatrix(e.Alist, e.whole[a])]
